@@ -65,4 +65,12 @@ abbrev Bytes := List UInt8
 /-- Text as Unicode scalar values. -/
 abbrev Str := List Char
 
+/-- Code-point order on text (= bytewise order of the UTF-8 encodings = Rust `String` order). -/
+def strLt : Str → Str → Bool
+  | [], [] => false
+  | [], _ :: _ => true
+  | _ :: _, [] => false
+  | a :: as, b :: bs => if a.toNat < b.toNat then true else if b.toNat < a.toNat then false else strLt as bs
+
+
 end InToto
